@@ -859,6 +859,8 @@ def run(ck: Ck) -> None:
         ck.explain('instance:mat_mul_alias_')
     if any(k.startswith('inverse-') for k in keys):
         ck.explain('instance:inverse_')
+        # the translator could not read inverse() (fail closed) AND the search exhibits a concrete wrong inverse
+        ck.explain('translate:RotInverse_gen')
     explain_build(ck, keys)
 
 
